@@ -480,7 +480,7 @@ func runTUnary(m *model.Model, s *ob.Set) {
 				return ""
 			})
 		}
-		for _, ex := range []int64{3, -9} {
+		for _, ex := range []int64{3, -9, 0} {
 			for _, al := range []bool{false, true} {
 				fn := m.Lookup("(*Decimal).SetMantExp")
 				it := stdInterp(m)
@@ -505,6 +505,11 @@ func runTUnary(m *model.Model, s *ob.Set) {
 							return "zero or infinite mantissa: nothing to scale"
 						}
 						return wantField(m, o, z, F.Form, e.formOf(cc), "form")
+					}
+					if len(evs) == 0 && exx == 0 {
+						// scaling by 10**0 without going through round: the accuracy Copy took
+						// from mant (Above here) must have been replaced by Exact
+						return first(wantField(m, o, z, F.Form, e.finite, "form"), wantField(m, o, z, F.Exp, 5, "exp"), wantField(m, o, z, F.Acc, e.exact, "acc (nothing is lost: not the accuracy of the operation that produced mant)"))
 					}
 					if len(evs) != 1 {
 						return "finite mantissa: exactly one setExpAndRound expected"
